@@ -384,6 +384,11 @@ CONSTRUCTS = {
     # python statements
     "tilde-syntax": (["~ zz = = 1"], 0, "Python syntax error"),
     "tilde-syntax-multiline": (["~ zz = [", "    1 2,", "]"], None, "Python syntax error"),
+    # comment lines, blank lines and correct lines inside the brackets, above the line that is wrong
+    "tilde-syntax-multiline-after-comment": (["~ zz = [", "    # the first", "    1,", "    # the second", "", "    2 3,", "]"],
+                                             None, "Python syntax error"),
+    "tilde-syntax-multiline-late": (["~ zz = {", "    'a': 1,", "    'b': [", "        2,", "    ],", "    'c' 3,", "}"],
+                                    None, "Python syntax error"),
     # includes (only diagnosed by compile_file)
     "include-no-path": (["@include"], 0, "@include directive missing file path"),
     "include-two-files": (["@include a.bard b.bard"], 0, "only include one file"),
